@@ -192,6 +192,15 @@ def check_state(st, ent, tier, out):
                 k = set(int(x) for x in view.keep(names).flatten())
                 d = set(int(x) for x in view.drop(names).flatten())
                 a = set(int(x) for x in view.all(names))
+                if len(names) == 1:
+                    # a single name given as a bare string means that name (not every name containing it)
+                    ks = set(int(x) for x in view.keep(names[0]).flatten())
+                    ds = set(int(x) for x in view.drop(names[0]).flatten())
+                    as_ = set(int(x) for x in view.all(names[0]))
+                    if ks != k or ds != d or as_ != a:
+                        bad('bare-string-name', f"{label}: keep/drop/all('{names[0]}') as a bare string differ from the one-element list "
+                            f"form (drop: {sorted(ds)[:8]} vs {sorted(d)[:8]})", selection=label, names=names)
+                        return False
             except Exception as e:
                 bad('filter-exception', f"{label}: keep/drop/all({names}) raised {e!r}", selection=label)
                 return False
@@ -343,8 +352,13 @@ def check_state(st, ent, tier, out):
                     out.ev()
                     try:
                         g = set(int(x) for x in b.get_dofs(sel, skip=names).flatten())
+                        gs = set(int(x) for x in b.get_dofs(sel, skip=names[0]).flatten())
                     except Exception as e:
                         bad('filter-exception', f"{label}: skip={names} raised {e!r}", selection=label)
+                        break
+                    if gs != g:
+                        bad('bare-string-name', f"{label}: skip='{names[0]}' as a bare string returned {sorted(gs)[:8]}, as a list "
+                            f"{sorted(g)[:8]}", selection=label, names=names)
                         break
                     if g != filt(want, names, False):
                         bad('skip', f"{label}: skip={names} returned {sorted(g)[:10]} expected "
@@ -391,6 +405,25 @@ def check_state(st, ent, tier, out):
             bad('complement', "complement_dofs(get_dofs()) is not the set complement of the boundary DOFs")
     except Exception as e:
         bad('exception', f"complement_dofs raised {e!r}")
+    # ... asked from a basis that integrates only part of the mesh (facet basis, cell subset): still relative to 0..N-1
+    if kind != 'wedge':
+        try:
+            from skfem import FacetBasis
+            others = [('CellBasis(elements=[0])', CellBasis(m, ent.make(), elements=np.array([0], dtype=np.int32), intorder=1))]
+            try:
+                others.append(('FacetBasis(facets=[0])', FacetBasis(m, ent.make(), facets=np.array([0], dtype=np.int32), intorder=1)))
+            except Exception:
+                pass
+            for ol, ob in others:
+                out.ev()
+                v = ob.get_dofs(np.array([0], dtype=np.int32))
+                comp = set(int(x) for x in ob.complement_dofs(v))
+                if comp != set(range(N)) - closure_facets((0,)):
+                    bad('complement', f"{ol}.complement_dofs(get_dofs([0])) is not the complement in 0..N-1 (returned {len(comp)} of "
+                        f"{N - len(closure_facets((0,)))} DOFs)")
+                    break
+        except Exception as e:
+            bad('exception', f"complement_dofs on a restricted basis raised {e!r}")
 
     # ------------------------------------------------------------------ cells
     csel = [(c,) for c in range(T.nt)] + list(itertools.combinations(range(T.nt), 2))[:10]
